@@ -49,7 +49,10 @@ use libp2p_swarm::{
 use prometheus_client::registry::Registry;
 use prost::Message as _;
 use rand::seq::{IteratorRandom, SliceRandom};
+#[cfg(not(libp2p_verif))]
 use web_time::{Instant, SystemTime};
+#[cfg(libp2p_verif)]
+use {crate::verif::Instant, web_time::SystemTime};
 
 #[cfg(feature = "metrics")]
 use crate::metrics::{Churn, Config as MetricsConfig, Inclusion, Metrics, Penalty};
@@ -3931,5 +3934,27 @@ impl fmt::Debug for PublishConfig {
             PublishConfig::RandomAuthor => f.write_fmt(format_args!("PublishConfig::RandomAuthor")),
             PublishConfig::Anonymous => f.write_fmt(format_args!("PublishConfig::Anonymous")),
         }
+    }
+}
+
+/// Verification-only hooks (`--cfg libp2p_verif`): forward to the private heartbeat and expose
+/// the fanout set.
+#[cfg(libp2p_verif)]
+impl<D, F> Behaviour<D, F>
+where
+    D: DataTransform + Send + 'static,
+    F: TopicSubscriptionFilter + Send + 'static,
+{
+    /// Runs one heartbeat now.
+    pub fn verif_heartbeat(&mut self) {
+        self.heartbeat()
+    }
+
+    /// The current fanout peers of `topic` (empty if there is no fanout entry).
+    pub fn verif_fanout(&self, topic: &TopicHash) -> Vec<PeerId> {
+        self.fanout
+            .get(topic)
+            .map(|peers| peers.iter().copied().collect())
+            .unwrap_or_default()
     }
 }
